@@ -450,10 +450,21 @@ def parse_harness_specs(src: str, defaults: dict | None = None) -> list[HarnessS
 # --------------------------------------------------------------------------------------------
 
 def load_known_findings() -> dict:
-    p = VERIF / "known_findings.json"
+    """Parse /verif/known_findings.txt (committed, never written at run time)."""
+    p = VERIF / "known_findings.txt"
+    out = {"findings": [], "fixed": []}
     if not p.exists():
-        return {"findings": [], "fixed": []}
-    return json.loads(p.read_text())
+        return out
+    for ln in p.read_text().splitlines():
+        ln = ln.strip()
+        m = re.match(r"finding:\s+property=(\S+)\s+role=(.*?)\s+::\s+(.*)", ln)
+        if m:
+            out["findings"].append({"property": m.group(1), "role": m.group(2).strip(), "what": m.group(3).strip()})
+            continue
+        m = re.match(r"fixed:\s+property=(\S+)\s+(\S+)\s+(.*)", ln)
+        if m:
+            out["fixed"].append({"property": m.group(1), "commit": m.group(2), "what": m.group(3)})
+    return out
 
 
 # --------------------------------------------------------------------------------------------
